@@ -313,3 +313,10 @@ def r7(rr, repo):
 def r8(rr, repo):
     from .c01 import r4 as c01r4
     c01r4(rr, repo)
+
+
+@rule('C03.R9', 'no frame is lost or replaced by a phantom set at a join: the receiver-side invariants of C01.R2 (reset of the other sources) and C01.R8 (fresh per-id sets, the subscription template is never handed out)')
+def r9(rr, repo):
+    from .c01 import r2 as c01r2, r8 as c01r8
+    c01r2(rr, repo)
+    c01r8(rr, repo)
